@@ -622,6 +622,13 @@ func (n *Net) Snapshot() (w []WriteRec, dl []DeadlineRec, cl []CloseRec) {
 	return append([]WriteRec(nil), n.Writes...), append([]DeadlineRec(nil), n.Deadlines...), append([]CloseRec(nil), n.Closes...)
 }
 
+// DropLogs forgets the write / deadline / close logs (very long sessions).
+func (n *Net) DropLogs() {
+	n.mu.Lock()
+	n.Writes, n.Deadlines, n.Closes = nil, nil, nil
+	n.mu.Unlock()
+}
+
 // Reads returns the number of Read calls started on side s.
 func (n *Net) Reads(s Side) int {
 	n.mu.Lock()
